@@ -40,6 +40,29 @@
 #define U32 MD4_u32plus
 #endif
 
+/* memcpy/memset with symbolic length into the 64-byte block buffer: CBMC's
+   built-in models are prohibitively expensive for that; these are bounded
+   models for this job (every length here is at most one block; a larger one
+   fails the obligation) */
+#ifndef XV_NATIVE
+void *memcpy (void *d, const void *s, size_t n)
+{
+  __CPROVER_assert (n <= 64, "memcpy model: at most one block");
+  unsigned char *dp = d; const unsigned char *sp = s;
+  for (size_t i = 0; i < 64; i++)   /* XV_UNWIND 64 */
+    if (i < n) dp[i] = sp[i];
+  return d;
+}
+void *memset (void *d, int c, size_t n)
+{
+  __CPROVER_assert (n <= 64, "memset model: at most one block");
+  unsigned char *dp = d;
+  for (size_t i = 0; i < 64; i++)   /* XV_UNWIND 64 */
+    if (i < n) dp[i] = (unsigned char) c;
+  return d;
+}
+#endif
+
 #define MAXLEN 100000
 const unsigned char *G_MSG; size_t G_LEN, G_PADLEN; size_t G_NBLK;
 struct st { U32 a, b, c, d; };
@@ -77,7 +100,7 @@ static bool R (const CTX *ctx, size_t off)
   struct st s = __CPROVER_uninterpreted_gstate (off / 64);
   bool ok = ctx->lo == (off & 0x1fffffff) && ctx->hi == (U32) (off >> 29)
             && ctx->a == s.a && ctx->b == s.b && ctx->c == s.c && ctx->d == s.d && G_NBLK == off / 64;
-  for (size_t i = 0; i < 64; i++)
+  for (size_t i = 0; i < 64; i++)   /* XV_UNWIND 64 */
     if (i < (off & 63) && ctx->buffer[i] != G_MSG[off - (off & 63) + i])
       ok = false;
   return ok;
@@ -129,6 +152,9 @@ void harness (void)
   XV_IN (size_t, off, nondet_size);
   XV_IN (size_t, n, nondet_size);
   XV_ASSUME (off <= G_LEN && n <= G_LEN - off);
+#ifdef XV_CASE_COND
+  XV_ASSUME (XV_CASE_COND);     /* exhaustive split over the buffer fill level off mod 64 */
+#endif
   CTX *ctx = malloc (sizeof (CTX));
   XV_ASSUME (ctx != NULL);
   G_NBLK = off / 64;
@@ -153,6 +179,9 @@ void harness (void)
   CTX *ctx = malloc (sizeof (CTX));
   unsigned char *out = malloc (16);
   XV_ASSUME (ctx != NULL && out != NULL);
+#ifdef XV_CASE_COND
+  { size_t off = G_LEN; XV_ASSUME (XV_CASE_COND); }
+#endif
   G_NBLK = G_LEN / 64;
   XV_ASSUME (R (ctx, G_LEN));
   D_Final (out, ctx);
